@@ -1,0 +1,14 @@
+//go:build verif
+
+package websocket
+
+// VerifWindows returns copies of the write and read context-takeover windows.
+func (t *Transport) VerifWindows() (w, r []byte) {
+	t.writeWindowBufMu.Lock()
+	w = append([]byte(nil), t.writeWindowBuf.Bytes()...)
+	t.writeWindowBufMu.Unlock()
+	t.readWindowBufMu.Lock()
+	r = append([]byte(nil), t.readWindowBuf.Bytes()...)
+	t.readWindowBufMu.Unlock()
+	return
+}
